@@ -230,7 +230,8 @@ func cmdGen(args []string) {
 				g.nons = append(g.nons, c)
 			}
 		}
-		for i := 0; i < p.Steps; i++ {
+		steps := p.Steps
+		for i := 0; i < steps; i++ {
 			if h.GCEvery > 0 && i%h.GCEvery == 0 {
 				runtime.GC()
 			}
@@ -238,6 +239,11 @@ func cmdGen(args []string) {
 			line := ss.step(op)
 			g.markClosed(op, line)
 			h.Ops = append(h.Ops, op)
+			if an, ok := line["anom"].([]string); ok && len(an) > 0 && !g.focus {
+				// witness continuation: concentrate on the structures an anomaly can affect
+				g.focus = true
+				steps += 60
+			}
 		}
 		if sched != nil {
 			sched.write(h)
